@@ -629,6 +629,11 @@ class SymbolTable():
         # Any wildcard imports that appear in one table but not in the other.
         unique_wildcard_imports = self_imports ^ other_imports
 
+        # Symbols to be specialised to IntrinsicSymbol. This is only done once
+        # all of the checks have passed so that a failed check leaves the
+        # symbols in both tables unmodified.
+        to_specialise = []
+
         for other_sym in other_table.symbols:
             if other_sym.name not in self or other_sym in symbols_to_skip:
                 continue
@@ -669,11 +674,12 @@ class SymbolTable():
                     try:
                         # An unresolved symbol representing an intrinisc is OK
                         _ = IntrinsicCall.Intrinsic[this_sym.name.upper()]
-                        # Take this opportunity to specialise the symbol(s).
+                        # Take this opportunity to specialise the symbol(s)
+                        # (once all of the checks have been performed).
                         if not isinstance(this_sym, IntrinsicSymbol):
-                            this_sym.specialise(IntrinsicSymbol)
+                            to_specialise.append(this_sym)
                         if not isinstance(other_sym, IntrinsicSymbol):
-                            other_sym.specialise(IntrinsicSymbol)
+                            to_specialise.append(other_sym)
                         continue
                     except KeyError:
                         pass
@@ -694,6 +700,11 @@ class SymbolTable():
                         f"There is a name clash for symbol '{this_sym.name}' "
                         f"that cannot be resolved by renaming "
                         f"one of the instances because:\n- {err1}\n- {err2}")
+
+        # There are no unresolvable clashes so it is now safe to modify
+        # symbols.
+        for sym in to_specialise:
+            sym.specialise(IntrinsicSymbol)
 
     def _add_container_symbols_from_table(self, other_table):
         '''
